@@ -1174,7 +1174,7 @@ package mcp
 // servePOST, registration of a new request stream: in one critical section, either some id of the batch is already
 // in flight (rejected, nothing registered) or routes are added for ids that had none - an existing route is never
 // overwritten (the transition invariant of cmu), so a response can never be steered to another request's exchange.
-//@ func (*streamableServerConn).servePOST [C10, C08, C12]
+//@ func (*streamableServerConn).servePOST [C10, C08, C12, C02]
 //@   heapfacts off
 //@   track checkRequest as t1
 //@   track validateMcpHeaders as t2
@@ -1190,7 +1190,8 @@ package mcp
 // c.incoming) only if the standard-header check, when it ran, accepted the request, and no error reply has been
 // written for this POST.
 //@   assert at call send:c.incoming: @nothing-is-dispatched-after-a-header-mismatch calls(t2) == 0 || lastResult(t2, 0) == nil
-//@   assert at call send:c.incoming: @nothing-is-dispatched-after-an-error-reply calls(t4) == 0
+//@   assert at call send:c.incoming: @nothing-is-dispatched-after-an-error-reply calls(t4) == 0 && calls(t9) == 0
+//@   track http.Error as t9
 //@   loop 3: invariant @ids-seen-so-far-are-not-in-flight c.requestStreams == at(locked_cmu_1, c.requestStreams) && (forall id jsonrpc2.ID :: {inDom(c.requestStreams, id)} (id in $visited) ==> !inDom(c.requestStreams, id)) && (forall id jsonrpc2.ID :: {inDom(c.requestStreams, id)} inDom(c.requestStreams, id) <==> at(locked_cmu_1, inDom(c.requestStreams, id)))
 //@   loop 4: invariant @only-fresh-ids-get-routes c.requestStreams == at(locked_cmu_1, c.requestStreams) && (forall id jsonrpc2.ID :: {inDom(local(calls), id)} inDom(local(calls), id) ==> !at(locked_cmu_1, inDom(c.requestStreams, id))) && (forall id jsonrpc2.ID :: {rawGet(c.requestStreams, id)} at(locked_cmu_1, inDom(c.requestStreams, id)) ==> inDom(c.requestStreams, id) && rawGet(c.requestStreams, id) == at(locked_cmu_1, rawGet(c.requestStreams, id)))
 
